@@ -356,12 +356,11 @@ pub fn run(cfg: &Cfg, corpus: &Corpus) -> Result<TierResult, String> {
     let thorough = cfg.tier == "thorough";
     let n_runs: usize = std::env::var("SIM_RUSTC_RUNS").ok().and_then(|s| s.parse().ok()).unwrap_or(if thorough { 8 } else { 2 });
     let runs = plan_runs(cfg.seed, n_runs, &corpus.dict_env);
-    let mut summary = Vec::new();
-    let mut violation = None;
-    let mut compiles = 0;
-    // both back-ends in both tiers (code under cfg(feature = "syn2") exists only in one of them)
-    let backends: Vec<Backend> = vec![Backend::Syn1, Backend::Syn2];
-    for backend in backends {
+    // the two back-ends are compiled in parallel (they have target directories of their own)
+    let per_backend = |backend: Backend| -> Result<(Vec<Value>, Option<(String, PathBuf)>, usize), String> {
+        let mut summary = Vec::new();
+        let mut violation: Option<(String, PathBuf)> = None;
+        let mut compiles = 0usize;
         // the panicking inputs ride in the `rej` crate: both only produce diagnostics
         let mut rej_items = sel.rej.clone();
         rej_items.extend(sel.pan.iter().cloned());
@@ -447,6 +446,23 @@ pub fn run(cfg: &Cfg, corpus: &Corpus) -> Result<TierResult, String> {
             let lines = reference.as_ref().map(|r| r.lines().count()).unwrap_or(0);
             summary.push(json!({"backend": backend.tag(), "crate": kind, "items": items.len(), "runs": runs.len(), "runs_equal_to_first": equal, "other_package_identity_and_reversed_source_order_equal_module_by_module": permuted_equal, "rendering_lines": lines}));
         }
+            Ok((summary, violation, compiles))
+    };
+    let (r1, r2) = std::thread::scope(|sc| {
+        let h1 = sc.spawn(|| per_backend(Backend::Syn1));
+        let h2 = sc.spawn(|| per_backend(Backend::Syn2));
+        (h1.join().unwrap_or_else(|_| Err("tier R thread panicked".to_string())), h2.join().unwrap_or_else(|_| Err("tier R thread panicked".to_string())))
+    });
+    let mut summary = Vec::new();
+    let mut violation = None;
+    let mut compiles = 0;
+    for r in [r1, r2] {
+        let (s, v, c) = r?;
+        summary.extend(s);
+        if violation.is_none() {
+            violation = v;
+        }
+        compiles += c;
     }
     Ok(TierResult {
         json: json!({
